@@ -896,6 +896,10 @@ CONSTRAINT_SETS = {
     # (added after an observation of a batch-10 seeding agent on the unchanged tree)
     "phase_range_beyond_pi": ({"fix_var": _BASE_FIX, "var_range": {_PHI: [0, 6.2], _RHO: [0.1, None], _RHO2: [0.0, None]}}, None, {_PHI: 4.0},
                               {_PHI: (0, 6.2), _RHO: (0.1, None), _RHO2: (0.0, None)}),
+    # the SAME two-sided mass limits written with the generic `<parameter>_range` spelling inside `params:` (set_prefix_constrains documents _range / _min / _max / _sigma /
+    # _free for every model parameter), on a resonance whose mass floats through `float: mg` (observation of a batch-10 seeding agent on the unchanged tree)
+    "range_spelling": ({"fix_var": _BASE_FIX}, {"R_BC": {"params": {"mass_range": [4.0, 4.3], "width_range": [0.02, 0.1]}}}, {"R_BC_width": 0.08},
+                       {"R_BC_mass": (4.0, 4.3), "R_BC_width": (0.02, 0.1)}),
     # a Gaussian constraint that PULLS: with these six floating parameters the unconstrained optimum of the toy sample has R_BC_mass ~ 4.198,
     # NLL -76.6 (BFGS and iminuit agree; the toy sample determines the mass only to ~0.03).  The constraint 4.12 +- 0.007 is ~11 sigma below it: the
     # constrained optimum sits ~2 sigma above the mean (term ~2), the start (configured mass 4.16) carries a term of 16.  A minimiser that drops the
@@ -1220,7 +1224,7 @@ def fit_first_order(ctx):
     if ctx.tier == "quick":
         _fit_group(ctx, ["BFGS"], ["tied", "two_sided", "gauss"], [1, 5, 30], agg=agg)
         _fit_group(ctx, ["BFGS", "CG"], ["tied_negative"], [2], second_fit=False, agg=agg)
-        _fit_group(ctx, ["BFGS"], ["phase_range_beyond_pi"], [5], second_fit=False, agg=agg)
+        _fit_group(ctx, ["BFGS"], ["phase_range_beyond_pi", "range_spelling"], [5], second_fit=False, agg=agg)
         _fit_group(ctx, ["BFGS"], ["gauss_pull"], [30], agg=agg)
         _fit_group(ctx, ["BFGS"], _ZERO_SETS, [30], second_fit=False, agg=agg)
         _fit_group(ctx, ["CG", "test", "Nelder-Mead"], ["none", "gauss_pull"], [5], second_fit=False, agg=agg)
